@@ -37,7 +37,19 @@ const WORDS: [&str; 30] = [
     "NA", "true", "false", "null", "None", "%3B", "%09", "1e5", "-0", "+1", "0x10", "inf", "NaN", "1.0", "00", ".", "-", "+", "\\N", "\\t",
 ];
 
+/// First-column values that other tools or formats give a meaning to.
+const FIRST_COLUMN_WORDS: [&str; 12] = [
+    "track", "browser", "track_7", "tracking", "browser position", "track name=x", "chr1", "MT", "*", "=", "##", "@SQ",
+];
+
 fn gen_field(w: &World, lo: u64, hi: u64, first_col: bool) -> String {
+    if first_col && w.chance(1, 15) {
+        let wd = FIRST_COLUMN_WORDS[w.draw(FIRST_COLUMN_WORDS.len() as u64) as usize];
+        if !wd.starts_with('#') {
+            return wd.to_string();
+        }
+        return format!("c{}", wd);
+    }
     let mut s = match w.draw(12) {
         0 => WORDS[w.draw(WORDS.len() as u64) as usize].to_string(),
         1 => string_from(w, field_chars(), lo, hi.max(300)),
